@@ -184,13 +184,67 @@ def check_C01(ctx):
 def ctx_rule(ctx):
     return ctx.extra.get('rule', '')
 
+WIRE_RULE = ('scenarios enumerated/sampled by TLC from GenWire!%s (environment spec: reply forms, encodings, perturbations, timing, bases), each executed on '
+             'the real protocol entry point over the simulated wire under the virtual clock, each trace validated by the TLA+ observer (Props formulas) '
+             'and compared with the design prediction (Conform); non-trivial = at least one packet was delivered to the capture handle; distinct by abstract label')
+
+def check_C02(ctx):
+    vt.tlc_design(ctx, 'MatcherMC', label='matchers: C01/C02/C04 design invariants over the perturbation lattice')
+    scen = vt.tlc_generate(ctx, 'GenWire', 'C02', 250 if ctx.quick() else 4000)
+    wire_family(ctx, 'C02', scen, WIRE_RULE % 'C02All', nontrivial=delivered_something)
+    vt.write_evidence(ctx, 'model_checking', ctx_rule(ctx), exhaustive=False)
+
+def check_C04(ctx):
+    vt.tlc_design(ctx, 'MatcherMC', label='matchers: C01/C02/C04 design invariants over the perturbation lattice')
+    scen = vt.tlc_generate(ctx, 'GenWire', 'C04', 0)
+    scen += [s for s in vt.tlc_generate(ctx, 'GenWire', 'C01', 0) if 'from_foreign' in s['label'] or 'genuine' in s['label']]
+    wire_family(ctx, 'C04', scen, WIRE_RULE % 'C04All (responder x form matrix) + the foreign-responder cases of C01All', nontrivial=delivered_something)
+    vt.write_evidence(ctx, 'model_checking', ctx_rule(ctx), exhaustive=True)
+
+def engines(ctx, prop, cfgs_par, cfgs_ser, obs):
+    for c in cfgs_par:
+        engine_family(ctx, prop, 'EngineParallelMC', c, 'parallel', obs)
+    for c in cfgs_ser:
+        engine_family(ctx, prop, 'EngineSerialMC', c, 'serial', obs)
+
+def check_C03(ctx):
+    par = ['EngineParallelMC.cfg', 'EngineParallelMC_faults.cfg', 'EngineParallelMC_hi.cfg', 'EngineParallelMC_wide.cfg']
+    ser = ['EngineSerialMC.cfg', 'EngineSerialMC_faults.cfg', 'EngineSerialMC_hi.cfg', 'EngineSerialMC_wide.cfg']
+    if not ctx.quick():
+        par.append('EngineParallelMC_4.cfg'); ser.append('EngineSerialMC_4.cfg')
+    engines(ctx, 'C03', par, ser, ['C03'])
+    rule = ctx_rule(ctx)
+    scen = vt.tlc_generate(ctx, 'GenWire', 'C06', 0) + vt.tlc_generate(ctx, 'GenWire', 'C04', 0 if not ctx.quick() else 150)
+    wire_family(ctx, 'C03', scen, rule, nontrivial=delivered_something)
+    ctx.extra['rule'] = rule + '; plus the wire-level C06All/C04All scenarios with the shape formula evaluated on the protocol entry points'
+    vt.write_evidence(ctx, 'model_checking', ctx_rule(ctx), exhaustive=True)
+
+def check_C05(ctx):
+    engines(ctx, 'C05', ['EngineParallelMC.cfg'], ['EngineSerialMC.cfg'] + ([] if ctx.quick() else ['EngineSerialMC_4.cfg']), ['C05'])
+    rule = ctx_rule(ctx)
+    scen = vt.tlc_generate(ctx, 'GenWire', 'C05', 400 if ctx.quick() else 0)
+    wire_family(ctx, 'C05', scen, rule, nontrivial=delivered_something)
+    ctx.extra['rule'] = rule + '; plus ' + (WIRE_RULE % 'C05All (per-hop delay assignments, duplicates with larger delay, production-scale timers)')
+    vt.write_evidence(ctx, 'model_checking', ctx_rule(ctx), exhaustive=not ctx.quick())
+
+def check_C06(ctx):
+    engines(ctx, 'C06', ['EngineParallelMC.cfg', 'EngineParallelMC_cancel.cfg'] if not ctx.quick() else ['EngineParallelMC.cfg'],
+            ['EngineSerialMC.cfg'], ['C06'])
+    rule = ctx_rule(ctx)
+    scen = vt.tlc_generate(ctx, 'GenWire', 'C06', 0)
+    wire_family(ctx, 'C06', scen, rule, nontrivial=lambda s, es: any(e['event'] == 'Send' for e in es))
+    ctx.extra['rule'] = rule + '; plus ' + (WIRE_RULE % 'C06All (255-TTL runs for every variant and identifier base; destination answers at every position relative to pacing)')
+    vt.write_evidence(ctx, 'model_checking', ctx_rule(ctx), exhaustive=True)
+
 def check_C07(ctx):
-    engine_family(ctx, 'C07', 'EngineParallelMC', 'EngineParallelMC.cfg', 'parallel', ['C07'])
+    cfgs = ['EngineParallelMC.cfg', 'EngineParallelMC_faults.cfg']
+    if not ctx.quick():
+        cfgs += ['EngineParallelMC_4.cfg', 'EngineParallelMC_hi.cfg']
+    engines(ctx, 'C07', cfgs, [], ['C07'])
     vt.write_evidence(ctx, 'model_checking', ctx_rule(ctx), exhaustive=True)
 
 CHECKS = {
-    'C01': check_C01,
-    'C07': check_C07,
+    'C01': check_C01, 'C02': check_C02, 'C03': check_C03, 'C04': check_C04, 'C05': check_C05, 'C06': check_C06, 'C07': check_C07,
 }
 
 def replay(ctx, path):
